@@ -65,9 +65,10 @@ pub fn run(cx: &mut Ctx, args: &Args, rng: &mut Rng) -> i32 {
     for ti in cx.select(args) {
         let (name, bs, kind) = (cx.types[ti].name, cx.types[ti].bs, cx.types[ti].kind);
         let mut r = rng.fork(name);
+        // the clone_from target is keyed with the previous key, also across key lengths
+        let mut prev_key: Option<Vec<u8>> = None;
         for len in key_lens(&cx.types[ti], all_lens) {
             cx.reset(name);
-            let mut prev_key: Option<Vec<u8>> = None;
             for (kc, key) in mix(&mut r, len, nkeys) {
                 let mut blocks = mix(&mut r, bs, nblocks);
                 if !key.is_empty() {
@@ -83,7 +84,7 @@ pub fn run(cx: &mut Ctx, args: &Args, rng: &mut Rng) -> i32 {
                     exercise(cx, cid, c.as_ref(), &blocks[..1], &mut r, false);
                     cx.drop_inst(cid, c);
                 }
-                if let Some(pk) = prev_key.as_ref().filter(|k: &&Vec<u8>| k.len() == key.len() && **k != key) {
+                if let Some(pk) = prev_key.as_ref().filter(|k: &&Vec<u8>| **k != key) {
                     if let Some((oid, mut o)) = cx.construct(ti, "slice", pk, "clone-from-target") {
                         match cx.clone_from(oid, &mut o, id, inst.as_ref()) {
                             Some(nid) => {
@@ -95,6 +96,13 @@ pub fn run(cx: &mut Ctx, args: &Args, rng: &mut Rng) -> i32 {
                     }
                 }
                 prev_key = Some(key.clone());
+                // new_checked: for a key that passes the screening, the same function as the unchecked constructors
+                if key.len() == cx.types[ti].key_size {
+                    if let Some((kid, k)) = cx.construct(ti, "checked", &key, &kc) {
+                        exercise(cx, kid, k.as_ref(), &blocks[..1], &mut r, false);
+                        cx.drop_inst(kid, k);
+                    }
+                }
                 // Enc-only types: join with the decrypting halves through the conversions
                 if kind == Kind::Enc {
                     for to in inst.conv_targets() {
